@@ -112,6 +112,11 @@ def check_pca(run, A):
                 if const_val(x) == 1:
                     continue
                 base = trailing_none(x)
+                if base is None and is_call_to(x, 'numpy.expand_dims') and call_arg(x, 1, 'axis') is not None and const_val(call_arg(x, 1, 'axis')) is NOVAL:
+                    # an axis put back at a computed position (the rank of another array): where it lands is not decided
+                    run.unresolved('SHAPE', 'get_pca_vector: scale has a trailing singleton axis', fn.loc(getattr(x, 'node', None)), 'np.expand_dims at a computed position')
+                    n_scaled += 1
+                    continue
                 run.check(base is not None, 'SHAPE', 'get_pca_vector: scale has a trailing singleton axis', fn.loc(getattr(x, 'node', None)), '',
                           'the scaling factor is not broadcast as scale[..., None]', construct=f'SHAPE::{qv}::scale-axis')
                 if base is None:
@@ -381,3 +386,6 @@ def check(run):
     check_rank_one(run, A)
     check_ban(run, A)
     check_hermitian_factors(run, A)
+    # every matrix of a stack is decomposed: a decomposition done block by block visits the last, partial block too
+    from ..opt import check_block_partitions
+    check_block_partitions(run, A, ('pb_bss.extraction.beamformer', 'pb_bss.math.solve'))
